@@ -653,6 +653,10 @@ class BaseProxy(_BaseProxy_):
             kind, result = server._callmethod(
                 None, self._token.id, methodname, args, kwds
             )
+            if kind == '#ERROR':
+                # `result` is a `RemoteException` wrapper that has not gone through pickling
+                # (which would turn it back into the original exception), so it can not be raised.
+                result = result.exc
         else:
             try:
                 conn = self._tls.connection
